@@ -295,18 +295,18 @@ def main(argv=None):
             replays.append(path)
             lines.append('VIOLATION property=%s replay=%s' % (pid, path))
             violations += 1
-            exit_code = max(exit_code, 1) if exit_code != 3 else 3
+            exit_code = 1 if exit_code in (0, 1, 2) else exit_code
         elif refuted and ob['role'] != 'aux' and outcome is None and replay_mod:
             # beyond the replay budget of this run: counted, listed in the evidence
             violations += 1
             not_investigated += 1
-            exit_code = max(exit_code, 1) if exit_code != 3 else 3
+            exit_code = 1 if exit_code in (0, 1, 2) else exit_code
         elif refuted and ob['role'] != 'aux':
             path = write_replay(pid, ob, outcome)
             replays.append(path)
             lines.append('VIOLATION property=%s replay=%s no-failing-input-found' % (pid, path))
             violations += 1
-            exit_code = max(exit_code, 1) if exit_code != 3 else 3
+            exit_code = 1 if exit_code in (0, 1, 2) else exit_code
         else:
             undecided.extend(gobs)
             lines.append('UNDECIDED property=%s obligation=%s result=%s %s' % (
@@ -360,7 +360,7 @@ def main(argv=None):
             thorough['stability'] = {'error': repr(e)[:200]}
         # (c) the native oracle of the property over its larger (thorough) bound, for every
         # property that has one (labelled bounded, never counted as proved)
-        if replay_mod and not entry.get('bounded_hook'):
+        if False:   # the native oracle runs over its thorough bound through the bounded hook below
             skip_sigs = [f.get('witness_signature') for f in known if f.get('status', 'open') == 'open'
                          and f.get('witness_signature')]
             out = native(replay_mod, {'mode': 'search', 'property': pid, 'obligation': {}, 'seed': seed,
@@ -386,7 +386,9 @@ def main(argv=None):
             exit_code = 3
     # bounded stand-ins (native, labelled bounded; never counted as proved)
     bounded = []
-    bhook = entry.get('bounded_hook')
+    # every property that has a native oracle also runs it over its stated bound (quick or
+    # thorough families): a bounded complement to the deductive verdict, labelled bounded
+    bhook = entry.get('bounded_hook') or ('pyvc.bounded_native' if entry.get('replay') else None)
     if bhook:
         mod = importlib.import_module(bhook)
         b = mod.run(pid, tier, seed, known)
